@@ -932,9 +932,13 @@ class ValueDecimal(Value):
 
 @functools.total_ordering
 class ValueFunc(Value):
+    created = 0     # functions made so far; orders functions of one name
+
     def __init__(self, name):
         self.name = name
         self.secure = True
+        ValueFunc.created += 1
+        self.serial = ValueFunc.created
 
     def __hash__(self):
         # functions are equal only to themselves; the name can change
@@ -945,6 +949,10 @@ class ValueFunc(Value):
         return self is other
 
     def __lt__(self, other):
+        if isinstance(other, ValueFunc):
+            # two functions of one name (all unnamed ones) in the order in
+            # which they were made, not in the order of their addresses
+            return (str(self), self.serial) < (str(other), other.serial)
         return str(self) < str(other)
 
     def __repr__(self):
